@@ -124,6 +124,15 @@ def case_pair(acc, i, j):
     P = get_pool()
     (la, a), (lb, b) = P[i], P[j]
     acc.evals += 1
+    try:
+        return _case_pair(acc, i, j, la, a, lb, b)
+    except Exception as e:  # noqa: BLE001 - comparing, hashing or reading two URLs must never raise
+        acc.viol("pair", (i, j), observed={"a": la, "b": lb, "exception": repr(e)}, expected="comparisons between URLs do not raise",
+                 msg="%s vs %s: comparison raised %r" % (la, lb, e))
+        return None
+
+
+def _case_pair(acc, i, j, la, a, lb, b):
     ka, kb = key(a), key(b)
     same = ka == kb
     if str(a) != str(b):
